@@ -31,6 +31,9 @@ RULE = (
     "question name/type, surplus record after the final SOA in the same / next message). Distinct by (request kind, stream shape, "
     "zone class, relativize, fault kind, position class, outcome)."
 )
+RULE += " " + (
+    "Also: after an applied transfer the zone is compared in its stored form (relative names in a relativized zone) with a zone-file load of the server's records."
+)
 ASSUMPTIONS = [
     "reference stream interpreter B3 in this file (DESIGN.md Appendix B3) decides accept / reject / not-done and the resulting content",
     "TTLs are a function of (owner, type) so RRset TTLs do not change between versions",
